@@ -207,6 +207,78 @@ var jsonEncFields = map[string]fieldSpec{
 	"openNamespaces": {"openNs", "int"},
 }
 
+// ---- the structural methods of the JSON encoder (zapcore/json_encoder.go).  addElementSeparator / addKey /
+// closeOpenNamespaces are intrinsics HERE: they are `Enc.sep`, `Enc.addKey` and the closing braces, which the table
+// TransJsonSep proves about the source.  Marshalers, the reflected encoder and the buffer pool are intrinsics handed
+// the fields they may touch; reflectBuf is a nil-able *buffer.Buffer.
+var jeFields = map[string]fieldSpec{
+	"buf": {"buf", "Buffer"}, "spaced": {"spaced", "bool"}, "openNamespaces": {"openNs", "int"},
+	"reflectBuf": {"rbuf", "opt:Buffer"}, "reflectEnc": {"renc", "opt:ReflEnc"}, "NewReflectedEncoder": {"newRefl", "ReflCtor"},
+	"EncoderConfig": {"cfg", "opt:Config"}, "#ev": {"ev", "[]Event"},
+}
+
+// the second *jsonEncoder of clone / Clone (the clone being made) and of EncodeEntry (the receiver, once `final` is primary)
+var jeOther = map[string]fieldSpec{
+	"buf": {"o.buf", "Buffer"}, "spaced": {"o.spaced", "bool"}, "openNamespaces": {"o.openNs", "int"},
+	"EncoderConfig": {"o.cfg", "opt:Config"}, "MessageKey": {"messageKey", "string"},
+}
+var jeOtherSelf = &fieldSpec{"o.self", "JE"}
+
+// EncodeEntry: `final` (the clone) is the primary object; the promoted EncoderConfig fields are shared with the receiver
+var jeEntryFields = merge2(jeFields, map[string]fieldSpec{
+	"LevelKey": {"levelKey", "string"}, "TimeKey": {"timeKey", "string"}, "NameKey": {"nameKey", "string"},
+	"CallerKey": {"callerKey", "string"}, "FunctionKey": {"functionKey", "string"}, "MessageKey": {"messageKey", "string"},
+	"StacktraceKey": {"stacktraceKey", "string"}, "LineEnding": {"lineEnding", "string"},
+	"EncodeLevel": {"encLevel", "opt:LevelEncoder"}, "EncodeName": {"encName", "opt:NameEncoder"},
+	"EncodeCaller": {"encCaller", "opt:CallerEncoder"}, "EncodeTime": {"encTime", "opt:TimeEncoder"},
+})
+
+func merge1(ms ...map[string]string) map[string]string {
+	out := map[string]string{}
+	for _, m := range ms {
+		for k, v := range m {
+			out[k] = v
+		}
+	}
+	return out
+}
+
+func merge2(ms ...map[string]fieldSpec) map[string]fieldSpec {
+	out := map[string]fieldSpec{}
+	for _, m := range ms {
+		for k, v := range m {
+			out[k] = v
+		}
+	}
+	return out
+}
+var jeSelf = &fieldSpec{"self", "JE"}
+var jeTypes = map[string]string{"ObjectMarshaler": "ObjM", "ArrayMarshaler": "ArrM", "interface{}": "opt:Any",
+	"*buffer.Buffer": "Buffer", "*jsonEncoder": "JE", "Encoder": "JE"}
+var jeState = []string{"buf", "openNamespaces", "reflectBuf", "reflectEnc"} // what a callee handed the encoder may change
+var jeCalls = merge(bufferCalls, map[string]shim{
+	"recv.addElementSeparator": {kind: "extfld", f: "addElementSeparator", flds: []string{"buf"}, with: []string{"spaced"}},
+	"recv.addKey":              {kind: "extfld", f: "addKey", flds: []string{"buf"}, with: []string{"spaced"}},
+	"recv.closeOpenNamespaces": {kind: "extfld", f: "closeOpenNamespaces", flds: []string{"buf", "openNamespaces"}},
+	// the marshaler is handed the encoder: it may append to buf, open namespaces, use the reflection scratch
+	"ObjM.MarshalLogObject": {kind: "extfld", f: "MarshalLogObject", flds: jeState, with: []string{"spaced"}, res: []string{"error"}},
+	"ArrM.MarshalLogArray":  {kind: "extfld", f: "MarshalLogArray", flds: jeState, with: []string{"spaced"}, res: []string{"error"}},
+	"Buffer.Write":          {kind: "mutext", f: "Buffer.Write", res: []string{"int", "error"}},
+	// reflection scratch: pooled buffer, user-configurable encoder writing into it
+	"bufferpool.Get":           {kind: "extstmt", f: "bufferpool.GetPtr", res: []string{"opt:Buffer"}, trace: "#ev"},
+	"recv.NewReflectedEncoder": {kind: "ext", f: "NewReflectedEncoder", with: []string{"NewReflectedEncoder"}, res: []string{"opt:ReflEnc"}},
+	"opt:Buffer.Reset":         {kind: "set", f: ".list [.bytes []]"},
+	"opt:Buffer.TrimNewline":   {kind: "mut", f: "Buffer.TrimNewline"},
+	"opt:Buffer.Bytes":         {kind: "ext", f: "optBuffer.Bytes", res: []string{"bytes"}},
+	"opt:Buffer.Free":          {kind: "extstmt", f: "Buffer.Free", trace: "#ev"},
+	"opt:ReflEnc.Encode":       {kind: "extfld", f: "ReflEnc.Encode", flds: []string{"reflectBuf"}, res: []string{"error"}},
+})
+
+func jeFunc(name string, extra map[string]shim) transFunc {
+	return transFunc{file: "zapcore/json_encoder.go", recv: "jsonEncoder", name: name, lean: name, fields: jeFields, recvAs: jeSelf,
+		types: jeTypes, consts: map[string]string{"nullLiteralBytes": "src"}, calls: merge(jeCalls, extra)}
+}
+
 var stdCalls = map[string]shim{
 	"bytes.IndexByte":       {kind: "builtin", f: "bytes.IndexByte", res: []string{"int"}},
 	"strings.IndexByte":     {kind: "builtin", f: "strings.IndexByte", res: []string{"int"}},
@@ -358,6 +430,70 @@ var transSpecs = []transSpec{
 				"runtime.CallersFrames": {kind: "ext", f: "runtime.CallersFrames", res: []string{"Frames"}},
 				"make":                  {kind: "ext", f: "make.zeros", res: []string{"[]u64"}},
 			}},
+	}},
+	{table: "TransJsonEnc", funcs: []transFunc{
+		jeFunc("AppendObject", nil),
+		jeFunc("AppendArray", nil),
+		jeFunc("AddObject", map[string]shim{"recv.AppendObject": {kind: "fun", f: "AppendObject", res: []string{"error"}}}),
+		jeFunc("AddArray", map[string]shim{"recv.AppendArray": {kind: "fun", f: "AppendArray", res: []string{"error"}}}),
+		jeFunc("OpenNamespace", nil),
+		jeFunc("resetReflectBuf", nil),
+		jeFunc("encodeReflected", map[string]shim{"recv.resetReflectBuf": {kind: "fun", f: "resetReflectBuf"}}),
+		jeFunc("AppendReflected", map[string]shim{"recv.encodeReflected": {kind: "fun", f: "encodeReflected", res: []string{"bytes", "error"}}}),
+		jeFunc("AddReflected", map[string]shim{"recv.encodeReflected": {kind: "fun", f: "encodeReflected", res: []string{"bytes", "error"}}}),
+		jeFunc("truncate", nil),
+		{file: "zapcore/json_encoder.go", recv: "jsonEncoder", name: "clone", lean: "clone", fields: jeFields, recvAs: jeSelf,
+			other: jeOther, otherAs: jeOtherSelf, types: jeTypes,
+			calls: merge(bufferCalls, map[string]shim{
+				// the pooled encoder: its fields at entry are whatever the pool held (reset by putJSONEncoder)
+				"_jsonPool.Get":  {kind: "object", f: "jsonPool.Get", trace: "#ev"},
+				"bufferpool.Get": {kind: "extstmt", f: "bufferpool.Get", res: []string{"Buffer"}, trace: "#ev"},
+			})},
+		{file: "zapcore/json_encoder.go", recv: "jsonEncoder", name: "Clone", lean: "Clone", fields: jeFields, recvAs: jeSelf,
+			other: jeOther, otherAs: jeOtherSelf, types: jeTypes,
+			calls: merge(bufferCalls, map[string]shim{
+				"recv.clone":   {kind: "objectfun", f: "clone"},
+				"Buffer.Write": {kind: "mutext", f: "Buffer.Write", res: []string{"int", "error"}},
+			})},
+		{file: "zapcore/json_encoder.go", name: "putJSONEncoder", lean: "putJSONEncoder", recvAs: jeSelf,
+			// here buf is the POINTER (it is set to nil), not the bytes behind it
+			fields: merge2(jeFields, map[string]fieldSpec{"buf": {"buf", "opt:Buffer"}}),
+			objParam: "enc", types: jeTypes,
+			calls: map[string]shim{
+				"opt:Buffer.Free": {kind: "extstmt", f: "Buffer.Free", trace: "#ev"},
+				"_jsonPool.Put":   {kind: "extstmt", f: "jsonPool.Put", trace: "#ev"},
+			}},
+		{file: "zapcore/json_encoder.go", recv: "jsonEncoder", name: "EncodeEntry", lean: "EncodeEntry", fields: jeEntryFields,
+			recvAs: jeSelf, other: jeOther, otherAs: jeOtherSelf,
+			types: merge1(jeTypes, map[string]string{"Entry": "struct:Entry", "Field": "Field", "Level": "i8", "time.Time": "Time",
+				"EntryCaller": "struct:EntryCaller"}),
+			structs: map[string][]fieldSpec{
+				"Entry": {{"Level", "i8"}, {"Time", "Time"}, {"LoggerName", "string"}, {"Message", "string"},
+					{"Caller", "struct:EntryCaller"}, {"Stack", "string"}},
+				"EntryCaller": {{"Defined", "bool"}, {"Function", "string"}, {"Rest", "CallerRest"}},
+			},
+			consts: map[string]string{"FullNameEncoder": "val:opt:NameEncoder|.list [.int 0]"},
+			calls: merge(bufferCalls, map[string]shim{
+				// final := enc.clone(): proved about the source as clone_matches_source; from here on `final` is primary
+				"recv.clone": {kind: "primary", f: "jsonEncoder.clone", flds: []string{"buf", "spaced", "openNamespaces", "reflectBuf", "reflectEnc"},
+					with: []string{"spaced", "openNamespaces"}, trace: "#ev"},
+				"recv.addElementSeparator": {kind: "extfld", f: "addElementSeparator", flds: []string{"buf"}, with: []string{"spaced"}},
+				"recv.addKey":              {kind: "extfld", f: "addKey", flds: []string{"buf"}, with: []string{"spaced"}},
+				"recv.closeOpenNamespaces": {kind: "extfld", f: "closeOpenNamespaces", flds: []string{"buf", "openNamespaces"}},
+				// leaf encoders of the same type (not structural): AppendString = separator + quoted escaped string, …
+				"recv.AppendString": {kind: "extfld", f: "AppendString", flds: []string{"buf"}, with: []string{"spaced"}},
+				"recv.AddString":    {kind: "extfld", f: "AddString", flds: []string{"buf"}, with: []string{"spaced"}},
+				"recv.AddTime":      {kind: "extfld", f: "AddTime", flds: []string{"buf"}, with: []string{"spaced", "EncodeTime"}},
+				// the configured sub-encoders are handed the encoder
+				"recv.EncodeLevel":      {kind: "extfld", f: "LevelEncoder", flds: []string{"buf"}, with: []string{"spaced", "EncodeLevel"}},
+				"recv.EncodeCaller":     {kind: "extfld", f: "CallerEncoder", flds: []string{"buf"}, with: []string{"spaced", "EncodeCaller"}},
+				"opt:NameEncoder()":     {kind: "extfld", f: "NameEncoder", flds: []string{"buf"}},
+				"addFields":             {kind: "extfld", f: "addFields", flds: jeState, with: []string{"spaced"}},
+				"putJSONEncoder":        {kind: "extstmt", f: "putJSONEncoder", with: []string{"reflectBuf"}, trace: "#ev"},
+				"Time.IsZero":           {kind: "ext", f: "Time.IsZero", res: []string{"bool"}},
+				"i8.String":             {kind: "ext", f: "Level.String", res: []string{"string"}},
+				"struct:EntryCaller.String": {kind: "ext", f: "EntryCaller.String", res: []string{"string"}},
+			})},
 	}},
 	{table: "TransLogger", funcs: []transFunc{
 		{file: "logger.go", name: "terminalHookOverride", lean: "terminalHookOverride", types: loggerTypes, consts: hookConsts},
